@@ -302,7 +302,8 @@ def gen_moof(rng, iv: int, with_mdat: bool, start: int) -> tuple[bytes, dict]:
     tf = m.find(b'traf', b'tfhd')
     tr = m.find(b'traf', b'trun')
     ver, flags, p = isobmff.fullbox(moof, tf)
-    mdat_data = start + len(moof) + 8
+    mdat_large = rng.random() < 0.2         # a 64-bit size header although the box is small: legal
+    mdat_data = start + len(moof) + (16 if mdat_large else 8)
     if flags & 1:
         # auxiliary information inside the moof cannot be addressed (unsigned saio offsets)
         # from a base behind it
@@ -322,13 +323,14 @@ def gen_moof(rng, iv: int, with_mdat: bool, start: int) -> tuple[bytes, dict]:
         new = bytearray(moof[tr.start:tr.end])
         struct.pack_into('>I', new, 8, (tver << 24) | tflags | 1)
         new[16:16] = struct.pack('>i', want + 4)
+        mdat_data += 4
         struct.pack_into('>I', new, 0, len(new))
         moof = bytearray(replace_box(bytes(moof), tr, bytes(new)))
         info['layout'] += '+added-data-offset'
     if cenc:
         fix_saio(moof, start, n)
         info['cenc'] = True
-    return bytes(moof) + bw.box(b'mdat', mdat_payload), info
+    return bytes(moof) + bw.box(b'mdat', mdat_payload, large=mdat_large), info
 
 
 def gen_case(rng, stsds) -> dict:
